@@ -114,6 +114,53 @@ def error_consts(tu, name, _memo={}):
     return out
 
 
+class _Pending(object):
+    pass
+
+
+def clears_when_true(tu, name, _memo={}):
+    """the repository function, entered with an exception pending, returns a
+    non-zero constant exactly on the paths on which it has cleared it (and 0
+    with the exception kept): `if (!forgives()) return NULL;`"""
+    key = (tu.family, name)
+    if key in _memo:
+        return _memo[key]
+    _memo[key] = False
+    fn = tu.funcs[name]
+    if tu.body(name) is None or not any(
+            n.k == "CallExpr" and callee(n) == ("fn", "PyErr_Clear") for n in fn.walk()):
+        return False
+    if (fn.t or "").split("(")[0].strip() != "int":
+        return False
+
+    class _An(ErrExc):
+        def initial(self):
+            return frozenset([("x", "yes")])
+    an = _An(CFG(fn), tu)
+    try:
+        an.solve()
+    except AnalysisError:
+        return False
+    ok = True
+    seen_true = False
+    for r in an.cfg.returns():
+        if r.e is None:
+            return False
+        for st in an.IN.get(r.id, ()):
+            st2 = an.flags_stmt(r, st)
+            v = an.flag_value_of(r.e, st2)
+            x = sget(st2, "x")
+            if not isinstance(v, int):
+                ok = False
+            elif v != 0:
+                seen_true = True
+                ok = ok and x == "no"
+            else:
+                ok = ok and x == "yes"
+    _memo[key] = ok and seen_true
+    return _memo[key]
+
+
 def always_raises(tu, name, _memo={}):
     """True when every return of the repository function is reached with an
     exception certainly pending (helpers such as IndexError(i))."""
@@ -316,6 +363,11 @@ class ErrExc(Analysis):
                 # the test itself decides
                 cls = self._edge_class("ptr", None, op, cst, want)
                 return sset(st, "x", "yes" if cls == "ok" else "no")
+            if c[0] == "fn" and c[1] in self.tu.funcs and c[1] != self.cfg.name and \
+                    clears_when_true(self.tu, c[1]):
+                # a predicate that forgives the pending exception: cleared iff it answers true
+                truthy = self._edge_class("zero-err", None, op, cst, want) == "ok"
+                return sset(st, "x", "no") if truthy else st
             dom = self._domain(tgt)
         else:
             p = path(tgt)
